@@ -279,3 +279,34 @@ Theorem C10_client_agrees_single_soa : forall m s,
   run None [m] = ([], SErr E_SingleSoa).
 Proof. exact client_agrees_single_soa. Qed.
 Print Assumptions C10_client_agrees_single_soa.
+
+(* multi-step histories: every reported diff applies to the version published
+   when its batch began *)
+Theorem C10_good_multi_diff_applies : forall pub pre o post rem add,
+  pub_ok pub = true -> good_multi (pre ++ o :: post) (d_start pub) = true ->
+  let st := fst (d_run pre (d_start pub)) in
+  snd (d_step o st) = [Some (rem, add)] ->
+  forall k, same_rrset (applied_at k (ds_pub st) rem add) (s_get k (ds_work (fst (d_step o st)))).
+Proof. exact good_multi_diff_applies. Qed.
+Print Assumptions C10_good_multi_diff_applies.
+
+(* the serial range check of a diff is in RFC 1982 order (C17) *)
+Theorem C10_serial_range_invalid_spec : forall s e,
+  s < 4294967296 -> e < 4294967296 ->
+  (serial_range_invalid s e = false <->
+   let d := (e + 4294967296 - s) mod 4294967296 in 0 < d /\ d <= 2147483648).
+Proof. exact serial_range_invalid_spec. Qed.
+Print Assumptions C10_serial_range_invalid_spec.
+
+Theorem C10_rr_count_width : 64 <= rr_count_bits.
+Proof. exact rr_count_width. Qed.
+Print Assumptions C10_rr_count_width.
+
+(* the stream client and the interpreter agree on IXFR difference sequences
+   spread over any number of messages *)
+Theorem C10_client_agrees_ixfr : forall snew ds ms cs,
+  (forall d, In d ds -> soa_serial (d_old d) <> soa_serial snew) ->
+  packs 251 ms cs -> concat cs = ixfr_seq snew ds -> ~ lone_soa_first Ixfr cs ->
+  client_stream (client_init 251) ms = (repeat true (length ms), true).
+Proof. exact client_agrees_ixfr. Qed.
+Print Assumptions C10_client_agrees_ixfr.
